@@ -42,7 +42,7 @@ for p in props:
     ))
 man = dict(
     version=1,
-    setup_cmd="cd lean && lake build ESRVerif esrmodel",
+    setup_cmd="/venv/bin/python harness/setup.py",
     hooks=dict(guard="ESR_VERIF", enable="checks copy /repo's working tree to a scratch dir and run it with ESR_VERIF=1 under harness/mpi_standin (no build step: Python)",
                baseline_off_cmd="cd /repo && /venv/bin/python -m pytest -ra -q -p no:cacheprovider --timeout=900 --continue-on-collection-errors",
                source_commits=json.load(open(os.path.join(VERIF, "hooks.json"))).get("source_commits", []) if os.path.exists(os.path.join(VERIF, "hooks.json")) else [],
